@@ -13,6 +13,7 @@
 //	wg.Wait()             -> simrt.Yield(site, "wait"); wg.Wait()   (call wrapped in a func literal)
 //	mu.Lock()/Unlock()    -> simrt.Lock/Unlock(site, &mu)  (RLock/RUnlock alike)
 //	select { ... }        -> simrt.Yield(site, "select"); select { ... }
+//	x.Load() (sync/atomic) -> simrt.Atomic(site, x.Load())          x.Store(v) -> x.Store(v); simrt.Yield(site, "atomic")
 //	time.Sleep(d)         -> simrt.Sleep(site, d)         time.Now() -> simrt.Now()
 //	os.Open/OpenFile/Create/Stat/ReadDir/MkdirAll -> simrt.OsOpen/... (file-system seam; -noos disables)
 //
@@ -69,6 +70,11 @@ func fail(format string, a ...any) {
 }
 
 // funcFullName returns e.g. "(*sync.WaitGroup).Wait" or "time.Sleep" for the callee of call.
+// isAtomic: a method of a sync/atomic type or a function of that package.
+func isAtomic(full string) bool {
+	return strings.HasPrefix(full, "(*sync/atomic.") || strings.HasPrefix(full, "sync/atomic.")
+}
+
 func funcFullName(info *types.Info, call *ast.CallExpr) string {
 	var id *ast.Ident
 	switch f := call.Fun.(type) {
@@ -227,6 +233,14 @@ func instrumentFile(p *packages.Package, f *ast.File) {
 		case *ast.GoStmt:
 			c.Replace(rewriteGo(info, x, tmp))
 			changed = true
+		case *ast.ExprStmt:
+			// an atomic operation without a result (Store): another task may run right after it
+			if call, ok := x.X.(*ast.CallExpr); ok && isAtomic(funcFullName(info, call)) && c.Index() >= 0 {
+				if tv, ok := info.Types[call]; ok && tv.IsVoid() {
+					c.InsertAfter(yieldStmt(x.Pos(), "atomic"))
+					changed = true
+				}
+			}
 		}
 		return true
 	}, func(c *astutil.Cursor) bool {
@@ -275,6 +289,15 @@ func instrumentFile(p *packages.Package, f *ast.File) {
 				}
 			}
 			full := funcFullName(info, x)
+			if isAtomic(full) {
+				// an atomic operation with a result (Load, Add, Swap, CompareAndSwap): the result is
+				// passed through simrt.Atomic, which lets another task run before it is used
+				if tv, ok := info.Types[x]; ok && !tv.IsVoid() {
+					c.Replace(&ast.CallExpr{Fun: sel("Atomic"), Args: []ast.Expr{site(fset, x.Pos(), "atomic"), x}})
+					changed = true
+				}
+				return true
+			}
 			switch full {
 			case "os.Open", "os.OpenFile", "os.Create", "os.Stat", "os.ReadDir", "os.MkdirAll":
 				if rewriteOS {
